@@ -710,6 +710,31 @@ func validate(data []byte, m model, r *fw.R) (list []finding, key [20]byte) {
 				f.add("resource-type", "%s: /%s /%s resolves to %s", where, u.Category, u.Name, pdfread.Fmt(rv))
 			}
 		}
+		// every font the writer embeds is a Type0 font with two-byte codes: a shown string holds whole codes
+		for _, op := range ops {
+			if op.Operator != "TJ" && op.Operator != "Tj" {
+				continue
+			}
+			var strs []pdfread.String
+			for _, o := range op.Operands {
+				switch v := o.(type) {
+				case pdfread.String:
+					strs = append(strs, v)
+				case pdfread.Array:
+					for _, e := range v {
+						if sv, ok := e.(pdfread.String); ok {
+							strs = append(strs, sv)
+						}
+					}
+				}
+			}
+			for _, sv := range strs {
+				if len(sv.B)%2 != 0 {
+					f.add("text-string-half-code", "%s: operator %s at offset %d shows a string of %d bytes (% x) with a font of two-byte codes", where, op.Operator, op.Offset, len(sv.B), sv.B)
+					break
+				}
+			}
+		}
 		// tallies against the history (vacuity guard, and the drawing calls must leave a trace)
 		cnt := map[string]int{}
 		for _, op := range ops {
